@@ -29,7 +29,7 @@ def stepC36 : List String → String
           -- the digest is instantiated with the identity (SHA-256 is only compared for equality)
           fmtStatus (handle id wl user pass ⟨ip, method = "POST", media, auth⟩)
       | _, _, _, _, _, _ => "bad-op"
-  | ["gate", method, level] =>
+  | "gate" :: method :: level :: _ =>
       match bytes? level with
       | some l => if handlerRuns (expectedGate method) (String.ofList (l.map Char.ofNat)) then "ran" else "refused"
       | none => "bad-op"
